@@ -63,27 +63,28 @@ int nondet_bool_(void);
 /* =============================================================== models == */
 
 /* ---- heap: malloc that cannot fail (ldb_malloc aborts on NULL), with a log of the blocks handed out ---- */
-#define HEAP_LOG 6
+#define HEAP_LOG 5
 struct heap_ghost {
   int mallocs;
   uint8_t *ptr[HEAP_LOG]; size_t req[HEAP_LOG];
   int frees;
   void *freed[HEAP_LOG];
   int overflow;
+  int big_symbolic;   /* 1: requests >= 1024 bytes get a block of symbolic size >= the request */
 } HG;
 
 static void heap_reset(void) {
   int i;
-  HG.mallocs = 0; HG.frees = 0; HG.overflow = 0;
+  HG.mallocs = 0; HG.frees = 0; HG.overflow = 0; HG.big_symbolic = 0;
   for (i = 0; i < HEAP_LOG; i++) { HG.ptr[i] = NULL; HG.req[i] = 0; HG.freed[i] = NULL; }
 }
 
 void *ldb_malloc(size_t n) {
   size_t m = n;
   uint8_t *p;
-  /* big blocks get a symbolic size >= the request: CBMC keeps them in its array theory instead of
-     bit-blasting 4 KiB; the arena never looks past what it asked for (checked against req[]) */
-  if (n >= 1024) { m = nondet_size(); __CPROVER_assume(m >= n); }
+  /* units that touch block CONTENT give big blocks a symbolic size >= the request: CBMC keeps them in its array
+     theory instead of bit-blasting 4 KiB (all checks are against the requested size req[]) */
+  if (n >= 1024 && HG.big_symbolic) { m = nondet_size(); __CPROVER_assume(m >= n); }
   p = malloc(m);
   __CPROVER_assume(p != NULL);
   if (HG.mallocs < HEAP_LOG) { HG.ptr[HG.mallocs] = p; HG.req[HG.mallocs] = n; } else HG.overflow = 1;
@@ -91,7 +92,8 @@ void *ldb_malloc(size_t n) {
   return p;
 }
 
-/* realloc that cannot fail.  RA.ghost == 0: CBMC's library realloc (content preserved).  RA.ghost == 1 (block
+#define RA_SMALL 4
+/* realloc that cannot fail.  RA.ghost == 0: fresh block, the first min(old, new) bytes preserved (vectors of at most 4 pointers).  RA.ghost == 1 (block
  * lists of arbitrary length): a fresh block of n bytes that keeps the pointer-sized element at the arbitrary
  * ghost index RA.j (exact for every statement about that element), the old block is released. */
 struct ra_ghost { int ghost; size_t j; int calls; } RA;
@@ -99,14 +101,20 @@ void *ldb_realloc(void *q, size_t n) {
   void *p;
   RA.calls++;
   if (!RA.ghost) {
-    p = realloc(q, n);
+    /* short pointer vectors only (bounded units): element-wise copy of up to RA_SMALL pointers */
+    size_t i, on = q != NULL ? __CPROVER_OBJECT_SIZE(q) : 0;
+    __CPROVER_assert(n <= RA_SMALL * sizeof(void *), "ldb_realloc model: the bounded units only grow short pointer vectors");
+    p = malloc(n);
     __CPROVER_assume(p != NULL);
+    for (i = 0; i < RA_SMALL; i++)
+      if ((i + 1) * sizeof(void *) <= n && (i + 1) * sizeof(void *) <= on) ((void **)p)[i] = ((void **)q)[i];
+    if (q != NULL) free(q);
     return p;
   }
   p = malloc(n);
   __CPROVER_assume(p != NULL);
   if (q != NULL) {
-    if (RA.j < n / sizeof(void *) && __CPROVER_r_ok((void **)q + RA.j, sizeof(void *)))
+    if (RA.j < n / sizeof(void *) && RA.j < __CPROVER_OBJECT_SIZE(q) / sizeof(void *))
       ((void **)p)[RA.j] = ((void **)q)[RA.j];
     free(q);
   }
@@ -128,13 +136,15 @@ static int was_freed(const void *p) {
 }
 
 /* ---- random source: every draw is arbitrary; the draws are counted ---- */
-struct rand_ghost { int calls; int ones; int bad_n; int after_zero; int seen_zero; } RG;
-static void rand_reset(void) { RG.calls = 0; RG.ones = 0; RG.bad_n = 0; RG.after_zero = 0; RG.seen_zero = 0; }
+struct rand_ghost { int calls; int ones; int bad_n; int after_zero; int seen_zero; int limit; int streak; } RG;   /* limit >= 0: at most that many successes in a row */
+static void rand_reset(void) { RG.calls = 0; RG.ones = 0; RG.bad_n = 0; RG.after_zero = 0; RG.seen_zero = 0; RG.limit = -1; RG.streak = 0; }
 
 void ldb_rand_init(ldb_rand_t *rnd, uint32_t seed) { rnd->seed = seed & 0x7fffffff; }
 int ldb_rand_one_in(ldb_rand_t *rnd, uint32_t n) {
   int r = nondet_bool_() ? 1 : 0;
   (void)rnd;
+  if (RG.limit >= 0 && RG.streak >= RG.limit) r = 0;
+  RG.streak = r ? RG.streak + 1 : 0;
   if (n != 4) RG.bad_n = 1;              /* LevelDB kBranching = 4 */
   if (RG.seen_zero) RG.after_zero = 1;   /* a draw after the first failure */
   RG.calls++;
@@ -685,7 +695,9 @@ void h_arena_aligned(void) {
 }
 
 /* ------------------------------------------- init, a run of allocations, clear -- */
+#ifndef SEQ_K
 #define SEQ_K 3
+#endif
 void h_arena_seq(void) {
   ldb_arena_t a;
   uint8_t *r[SEQ_K]; size_t sz[SEQ_K]; int al[SEQ_K];
@@ -723,3 +735,221 @@ void h_arena_seq(void) {
 }
 
 #endif /* SKL_ARENA */
+
+/* ======================================================================== */
+#ifdef SKL_MEM
+/* ================================ section: memtable iterator and lifetime == */
+/* Real memtable.c + skiplist.c + arena.c in one translation unit (+ vector.c, buffer.c, slice.c, iterator.c).
+ *
+ * Memtable entry (LevelDB db/memtable.cc):  varint32(iklen) | internal key[iklen] | varint32(vlen) | value[vlen],
+ * internal key = user key | LE64(seq << 8 | type).  The iterator's key() is the internal key slice, value() the
+ * value slice, both pointing INTO the entry; seek(target) searches for varint32(|target|) | target, built in
+ * the iterator's scratch buffer.
+ */
+#include "table/iterator.h"
+#include "util/status.h"
+#include "dbformat.h"
+#include "memtable.h"
+
+/* memcpy: range-checked; copies exactly the byte at the arbitrary ghost index MC.j (exact for every statement
+ * about that byte; complete when all copied lengths are <= 1 and MC.j == 0) */
+struct memcpy_ghost { size_t j; int calls; } MC;
+void *memcpy(void *dst, const void *src, size_t n) {
+  __CPROVER_assert(__CPROVER_r_ok(src, n), "memcpy: source readable for n bytes");
+  __CPROVER_assert(__CPROVER_w_ok(dst, n), "memcpy: destination writable for n bytes");
+  MC.calls++;
+  if (MC.j < n) ((uint8_t *)dst)[MC.j] = ((const uint8_t *)src)[MC.j];
+  return dst;
+}
+
+/* comparator of the memtable's skip list (stands for the internal key comparator): records its operands;
+ * mode 0: answers MCG.ret (arbitrary); mode 1: orders internal keys by their first byte */
+struct mcmp_ghost {
+  int mode, ret, calls, bad_self;
+  const ldb_comparator_t *self;
+  const uint8_t *xd; size_t xn; const uint8_t *yd; size_t yn;
+} MCG;
+static int mem_compare(const ldb_comparator_t *c, const ldb_slice_t *x, const ldb_slice_t *y) {
+  MCG.calls++;
+  if (c != MCG.self) MCG.bad_self = 1;
+  MCG.xd = x->data; MCG.xn = x->size; MCG.yd = y->data; MCG.yn = y->size;
+  if (MCG.mode == 0) return MCG.ret;
+  if (x->size < 1 || y->size < 1) { MCG.bad_self = 1; return 0; }
+  return x->data[0] < y->data[0] ? -1 : x->data[0] > y->data[0] ? 1 : 0;
+}
+static void mcmp_setup(ldb_comparator_t *cmp, int mode) {
+  cmp->name = NULL; cmp->compare = mem_compare; cmp->shortest_separator = NULL; cmp->short_successor = NULL;
+  cmp->user_comparator = cmp; cmp->state = NULL;
+  MCG.mode = mode; MCG.ret = nondet_int(); MCG.calls = 0; MCG.bad_self = 0; MCG.self = cmp;
+  MCG.xd = NULL; MCG.xn = 0; MCG.yd = NULL; MCG.yn = 0;
+}
+
+#include "util/arena.c"
+#include "skiplist.c"
+#include "memtable.c"
+
+struct mem_hstore { const uint8_t *key; ldb_skipnode_t *volatile next[SKL_MAXH]; };
+
+/* ------------------------------------------ ldb_memiter_key / ldb_memiter_value -- */
+void h_mi_kv(void) {
+  ldb_memiter_t it;
+  ldb_skipnode_t nd;
+  ldb_slice_t k, v;
+  IN_SIZE(in_e_n); IN_SIZE(in_khdr); IN_SIZE(in_iklen); IN_SIZE(in_vhdr); IN_SIZE(in_vlen);
+  IN_BUF(entry, in_e_n); SNAP_BUF(entry, in_e_n);
+  /* a well-formed entry: two length-prefixed slices back to back */
+  ASSUME(in_khdr >= 1 && in_khdr <= 5 && in_vhdr >= 1 && in_vhdr <= 5 && in_iklen <= 0xffffffffu && in_vlen <= 0xffffffffu);
+  ASSUME(in_e_n == in_khdr + in_iklen + in_vhdr + in_vlen);
+  ASSUME(V_WELLFORMED(entry, in_khdr) && V32_VAL(entry, in_khdr) == in_iklen);
+  ASSUME(V_WELLFORMED(entry + in_khdr + in_iklen, in_vhdr) && V32_VAL(entry + in_khdr + in_iklen, in_vhdr) == in_vlen);
+  nd.key = entry; nd.next[0] = NULL;
+  it.iter.list = NULL; it.iter.node = &nd;
+  it.tmp.data = NULL; it.tmp.size = 0; it.tmp.alloc = 0;
+  CHECK(ldb_memiter_valid(&it) == 1, "memiter_valid: an iterator on a node is valid");
+  k = ldb_memiter_key(&it);
+  CHECK(k.data == entry + in_khdr && k.size == in_iklen, "memiter_key: the internal key slice = the bytes after the entry's first length prefix, exactly the prefixed length");
+  v = ldb_memiter_value(&it);
+  CHECK(v.data == entry + in_khdr + in_iklen + in_vhdr && v.size == in_vlen, "memiter_value: the value slice = the length-prefixed slice that starts right after the internal key");
+  CHECK(ldb_memiter_status(&it) == LDB_OK, "memiter_status: always OK");
+  CHECK(it.iter.node == &nd && nd.key == entry, "memiter_key/value: the cursor does not move");
+  it.iter.node = NULL;
+  CHECK(ldb_memiter_valid(&it) == 0, "memiter_valid: an iterator on no node is invalid");
+  CANARY();
+}
+
+/* ------------------------------------------------------- ldb_memiter_seek -- */
+void h_mi_seek(void) {
+  ldb_skiplist_t list; ldb_comparator_t cmp;
+  struct mem_hstore head; ldb_skipnode_t nd;
+  ldb_memiter_t it;
+  ldb_slice_t target;
+  uint8_t nkey[2];
+  int l;
+  size_t hdr;
+  IN_SIZE(in_tn); IN_INT(in_has_node); IN_SIZE(in_a0); IN_SIZE(in_s0); IN_SIZE(in_j); IN_INT(in_on_node);
+  IN_BUF(tgt, in_tn); SNAP_BUF(tgt, in_tn);
+  ASSUME(in_tn <= 0xffffffffu);                    /* the prefix is a varint32 */
+  heap_reset(); RA.ghost = 1; RA.j = (size_t)-1; RA.calls = 0;
+  mcmp_setup(&cmp, 0);
+  /* list with no node or one node of height 1 (the search itself is skl.find_ge) */
+  nkey[0] = 1; nkey[1] = nondet_u8();
+  nd.key = nkey; nd.next[0] = NULL;
+  head.key = NULL;
+  for (l = 0; l < SKL_MAXH; l++) head.next[l] = NULL;
+  if (in_has_node) head.next[0] = &nd;
+  list.comparator = &cmp; list.arena = NULL; list.head = (ldb_skipnode_t *)&head; list.max_height = 1;
+  /* iterator in an arbitrary earlier state: any position, scratch buffer with arbitrary old content */
+  it.iter.list = &list; it.iter.node = in_on_node ? &nd : NULL;
+  ASSUME(in_a0 <= ((size_t)1 << 40) && in_s0 <= in_a0);
+  it.tmp.data = NULL; it.tmp.alloc = in_a0; it.tmp.size = in_s0;
+  if (in_a0 > 0) { it.tmp.data = malloc(in_a0); ASSUME(it.tmp.data != NULL); }
+  target.data = tgt; target.size = in_tn; target.alloc = 0;
+  MC.j = in_j; MC.calls = 0;
+  ldb_memiter_seek(&it, &target);
+  hdr = V32_SIZE(in_tn);
+  CHECK(it.tmp.size == hdr + in_tn && it.tmp.size <= it.tmp.alloc, "memiter_seek: the scratch buffer holds exactly prefix + target (old content dropped)");
+  CHECK(V_WELLFORMED(it.tmp.data, hdr) && V32_VAL(it.tmp.data, hdr) == (uint32_t)in_tn, "memiter_seek: the scratch buffer starts with varint32(|target|), minimal encoding");
+  CHECK(!(in_j < in_tn) || it.tmp.data[hdr + in_j] == tgt[in_j], "memiter_seek: followed by the target's bytes (arbitrary ghost index)");
+  if (in_has_node) {
+    CHECK(MCG.calls == 1 && !MCG.bad_self, "memiter_seek: one comparison against the single node, through the list's comparator");
+    CHECK(MCG.xd == nkey + 1 && MCG.xn == 1, "memiter_seek: left operand = the node's key without its length prefix");
+    CHECK(MCG.yd == it.tmp.data + hdr && MCG.yn == in_tn, "memiter_seek: right operand = the target without the prefix, exact length: the skip list is searched for the length-prefixed target");
+    CHECK(it.iter.node == (MCG.ret < 0 ? NULL : &nd), "memiter_seek: positions on the first node whose key is >= the target, invalid if none");
+  } else {
+    CHECK(MCG.calls == 0 && it.iter.node == NULL, "memiter_seek: empty list: invalid, nothing compared");
+  }
+  CHECK(it.iter.list == &list, "memiter_seek: stays bound to the memtable's list");
+  CANARY();
+}
+
+/* --------------------------------------- ldb_memtable_create / ref / unref / usage -- */
+void h_mt_life(void) {
+  ldb_comparator_t icmp;
+  ldb_memtable_t *mt;
+  IN_INT(in_refs);
+  int l, bad = 0;
+  heap_reset(); RA.ghost = 0; RA.calls = 0; RA.j = 0; rand_reset();
+  mcmp_setup(&icmp, 1);
+  mt = ldb_memtable_create(&icmp);
+  MCG.self = &mt->comparator;
+  CHECK(HG.mallocs == 2 && (void *)mt == (void *)HG.ptr[0] && HG.req[0] == sizeof(ldb_memtable_t), "memtable_create: the memtable is one heap object");
+  CHECK(HG.req[1] == 4096, "memtable_create: the skip list head comes from the first 4096-byte arena block");
+  CHECK(mt->refs == 0, "memtable_create: starts with zero references (the caller takes the first)");
+  CHECK(mt->comparator.compare == mem_compare && mt->comparator.user_comparator == icmp.user_comparator, "memtable_create: keeps a copy of the internal key comparator");
+  CHECK(mt->table.comparator == &mt->comparator && mt->table.arena == &mt->arena, "memtable_create: the skip list uses the memtable's own comparator copy and arena");
+  CHECK((uint8_t *)mt->table.head == HG.ptr[1] && mt->table.max_height == 1 && mt->table.head->key == NULL, "memtable_create: empty skip list, head at the start of the block");
+  for (l = 0; l < SKL_MAXH; l++) if (mt->table.head->next[l] != NULL) bad = 1;
+  CHECK(!bad, "memtable_create: all 12 head links NULL");
+  CHECK(ldb_memtable_usage(mt) == 4096 + sizeof(void *), "memtable_usage: the arena's usage (one block + one pointer)");
+  CHECK(mt->arena.left == 4096 - (sizeof(void *) + SKL_MAXH * sizeof(void *)), "memtable_create: the head node (key + 12 links) is carved from the block");
+  ASSUME(in_refs >= 0 && in_refs < 0x7fffffff);
+  mt->refs = in_refs;
+  ldb_memtable_ref(mt);
+  CHECK(mt->refs == in_refs + 1 && HG.frees == 0, "memtable_ref: one more reference, nothing released");
+  ldb_memtable_unref(mt);
+  if (in_refs > 0) {
+    CHECK(HG.frees == 0 && mt->refs == in_refs, "memtable_unref: one reference less; a memtable that is still referenced is not released");
+  } else {
+    CHECK(was_freed(mt) == 1 && was_freed(HG.ptr[1]) == 1 && HG.frees == 3, "memtable_unref: dropping the last reference frees the arena block, the block list and the memtable, each once");
+  }
+  CANARY();
+}
+
+/* ------------------------------------------- add, then iterate through the vtable -- */
+#ifndef E2E_K
+#define E2E_K 2
+#endif
+void h_e2e(void) {
+  ldb_comparator_t icmp;
+  ldb_memtable_t *mt;
+  ldb_iter_t *iter;
+  uint8_t id[E2E_K], val[E2E_K], kb[E2E_K][1], vb[E2E_K][1]; uint64_t seq[E2E_K]; int ty[E2E_K];
+  int i, j, ord[E2E_K];
+  uint8_t tb[9]; ldb_slice_t t; ldb_slice_t k, v;
+  IN_U8(in_t); IN_INT(in_pos);
+  heap_reset(); HG.big_symbolic = 1; RA.ghost = 0; RA.calls = 0; RA.j = 0; rand_reset(); RG.limit = 1;
+  MC.j = 0; MC.calls = 0;
+  mcmp_setup(&icmp, 1);
+  mt = ldb_memtable_create(&icmp);
+  MCG.self = &mt->comparator;
+  ldb_memtable_ref(mt);
+  for (i = 0; i < E2E_K; i++) {
+    ldb_slice_t ks, vs;
+    id[i] = nondet_u8(); val[i] = nondet_u8(); seq[i] = nondet_u64(); ty[i] = nondet_bool_() ? LDB_TYPE_VALUE : LDB_TYPE_DELETION;
+    ASSUME(seq[i] <= LDB_MAX_SEQUENCE);
+    for (j = 0; j < E2E_K; j++) if (j < i) ASSUME(id[j] != id[i]);    /* distinct keys (the list forbids duplicates) */
+    kb[i][0] = id[i]; vb[i][0] = val[i];
+    ks.data = kb[i]; ks.size = 1; ks.alloc = 0; vs.data = vb[i]; vs.size = 1; vs.alloc = 0;
+    ldb_memtable_add(mt, seq[i], (ldb_valtype_t)ty[i], &ks, &vs);
+  }
+  /* ord[r] = index of the entry with the r-th smallest id */
+  for (i = 0; i < E2E_K; i++) { int r = 0; for (j = 0; j < E2E_K; j++) if (id[j] < id[i]) r++; ord[r] = i; }
+  iter = ldb_memiter_create(mt);
+  CHECK(iter->table == &ldb_memiter_table && iter->cmp == &mt->comparator, "memiter_create: an iterator with the memtable vtable, ordered by the memtable's comparator");
+  CHECK(!ldb_iter_valid(iter), "memiter_create: not positioned");
+#define E2E_AT(r, who) do { int e_ = ord[r]; \
+    CHECK(ldb_iter_valid(iter), who ": valid on an entry"); \
+    k = ldb_iter_key(iter); v = ldb_iter_value(iter); \
+    CHECK(k.size == 9 && k.data[0] == id[e_] && LE64_AT(k.data + 1) == ((seq[e_] << 8) | (uint64_t)ty[e_]), who ": key() = user key | LE64(seq << 8 | type) of the entry in key order"); \
+    CHECK(v.size == 1 && v.data[0] == val[e_], who ": value() = the value added with that key"); } while (0)
+  /* forward */
+  ldb_iter_first(iter);
+  for (i = 0; i < E2E_K; i++) { E2E_AT(i, "forward scan"); ldb_iter_next(iter); }
+  CHECK(!ldb_iter_valid(iter), "forward scan: invalid after the last entry (complete, nothing extra)");
+  /* backward */
+  ldb_iter_last(iter);
+  for (i = E2E_K - 1; i >= 0; i--) { E2E_AT(i, "backward scan"); ldb_iter_prev(iter); }
+  CHECK(!ldb_iter_valid(iter), "backward scan: invalid before the first entry");
+  /* seek: target internal key with user key in_t */
+  tb[0] = in_t; for (i = 1; i < 9; i++) tb[i] = nondet_u8();
+  t.data = tb; t.size = 9; t.alloc = 0;
+  ldb_iter_seek(iter, &t);
+  { int r = 0; for (j = 0; j < E2E_K; j++) if (id[j] < in_t) r++;
+    if (r < E2E_K) { ASSUME(in_pos == r); E2E_AT(in_pos, "seek"); } else CHECK(!ldb_iter_valid(iter), "seek: invalid when every key is smaller than the target"); }
+  CHECK(ldb_iter_status(iter) == LDB_OK, "memiter status: OK");
+  CHECK(!MCG.bad_self, "memtable: every comparison goes through the memtable's comparator copy");
+  CHECK(ldb_memtable_usage(mt) == 4096 + sizeof(void *) && HG.mallocs == 4, "memtable_usage: entries and nodes share the first arena block");
+  CANARY();
+}
+
+#endif /* SKL_MEM */
